@@ -486,6 +486,24 @@ def returns_of(f):
     return [n for n in walk_shallow(f.node) if isinstance(n, ast.Return)]
 
 
+def value_choices(f):
+    """two-way choices of a value, whichever way they are written: [(node, test, value if true, value if false, what)] for
+    a conditional expression (what = 'expr'), `if t: return A else: return B` (what = 'return') and
+    `if t: x = A else: x = B` (what = the target text).  The loader has already turned guard clauses into if/else."""
+    out = []
+    for n in walk_shallow(f.node):
+        if isinstance(n, ast.IfExp):
+            out.append((n, n.test, n.body, n.orelse, "expr"))
+        elif isinstance(n, ast.If) and len(n.body) == 1 and len(n.orelse) == 1:
+            a, b = n.body[0], n.orelse[0]
+            if isinstance(a, ast.Return) and isinstance(b, ast.Return) and a.value is not None and b.value is not None:
+                out.append((n, n.test, a.value, b.value, "return"))
+            elif isinstance(a, ast.Assign) and isinstance(b, ast.Assign) and len(a.targets) == 1 and len(b.targets) == 1 \
+                    and ast.dump(a.targets[0]) == ast.dump(b.targets[0]):
+                out.append((n, n.test, a.value, b.value, ast.unparse(a.targets[0])))
+    return out
+
+
 def dict_items(e):
     """{key: value expr} of a dict literal / dict(k=v) call with constant keys, else None."""
     if isinstance(e, ast.Dict):
